@@ -50,6 +50,115 @@ def run(rep: core.Report):
     _r14e(rep)
     _r14f(rep)
     _r14g(rep)
+    _r14h(rep)
+
+
+# ---------------------------------------------------------------------------
+# R14h band connection yields a permutation
+# ---------------------------------------------------------------------------
+
+BS = "phonopy/phonon/band_structure.py"
+
+
+def _seq_domain(fn, expr, params_perm, depth=0):
+    """'perm' | 'noninj' | None (unknown) for an index sequence expression inside fn."""
+    if depth > 6:
+        return None
+    if isinstance(expr, ast.Call):
+        f = core.src(expr.func)
+        if f in ("range",):
+            return "perm"
+        if f in ("np.argsort",) or f.endswith(".argsort"):
+            return "perm"
+        if f in ("np.argmax", "np.argmin", "np.nanargmax", "np.nanargmin") or f.endswith(".argmax") or f.endswith(".argmin"):
+            return "noninj"  # independent maxima: two rows may pick the same column
+        if f in ("list", "np.array", "np.asarray", "tuple") and expr.args:
+            return _seq_domain(fn, expr.args[0], params_perm, depth + 1)
+        if f == "estimate_band_connection":
+            return "perm"  # established by R14h on the callee
+        return None
+    if isinstance(expr, ast.Subscript) and isinstance(expr.value, ast.Call) and core.src(expr.value.func).endswith("linear_sum_assignment"):
+        return "perm"
+    if isinstance(expr, ast.ListComp) and len(expr.generators) == 1 and not expr.generators[0].ifs:
+        g = expr.generators[0]
+        elt = expr.elt
+        while isinstance(elt, ast.Call) and core.src(elt.func) in ("int",) and elt.args:
+            elt = elt.args[0]
+        if isinstance(elt, ast.Subscript) and isinstance(g.target, ast.Name) and core.src(elt.slice) == g.target.id:
+            a = _seq_domain(fn, elt.value, params_perm, depth + 1)
+            b = _seq_domain(fn, g.iter, params_perm, depth + 1)
+            if a == "noninj" or b == "noninj":
+                return "noninj"
+            return "perm" if a == "perm" and b == "perm" else None
+        return None
+    if isinstance(expr, ast.Name):
+        if expr.id in params_perm:
+            return "perm"
+        defs = [s for s in ast.walk(fn) if isinstance(s, ast.Assign) and any(isinstance(t, ast.Name) and t.id == expr.id for t in s.targets)]
+        if len(defs) == 1 and isinstance(defs[0].value, ast.List) and not defs[0].value.elts:
+            return _built_by_exclusion(fn, expr.id)
+        doms = {_seq_domain(fn, d.value, params_perm, depth + 1) for d in defs}
+        if len(doms) == 1:
+            return doms.pop()
+        if "noninj" in doms:
+            return "noninj"
+        return None
+    return None
+
+
+def _built_by_exclusion(fn, name):
+    """A list filled by `name.append(m)` once per outer iteration, where m is chosen by an inner loop over all
+    candidate indices that skips those already in the list: injective and complete, i.e. a permutation."""
+    apps = [c for c in ast.walk(fn) if isinstance(c, ast.Call) and core.src(c.func) == f"{name}.append" and len(c.args) == 1]
+    if len(apps) != 1 or not isinstance(apps[0].args[0], ast.Name):
+        return None
+    chosen = apps[0].args[0].id
+    outer = [lp for lp in ast.walk(fn) if isinstance(lp, ast.For) and any(isinstance(s, ast.Expr) and s.value is apps[0] for s in lp.body)]
+    if not outer:
+        return None
+    inner = [lp for lp in outer[0].body if isinstance(lp, ast.For)]
+    for lp in inner:
+        if not isinstance(lp.target, ast.Name):
+            continue
+        cand = lp.target.id
+        assigns = [s for s in ast.walk(lp) if isinstance(s, ast.Assign) and core.src(s.targets[0]) == chosen and core.src(s.value) == cand]
+        if not assigns:
+            continue
+        # exclusion: `if cand in name: continue` before the assignment, or the assignment guarded by `cand not in name`
+        skip = any(isinstance(s, ast.If) and core.src(s.test) == f"{cand} in {name}" and any(isinstance(x, ast.Continue) for x in s.body) for s in lp.body)
+        guarded = any(isinstance(s, ast.If) and f"{cand} not in {name}" in core.src(s.test) and any(a in set(ast.walk(s)) for a in assigns) for s in ast.walk(lp))
+        full = "range(len(" in core.src(lp.iter) or core.src(lp.iter).startswith("range(")
+        if (skip or guarded) and full:
+            return "perm"
+        return "noninj"  # the best candidate is taken without excluding those already used
+    return None
+
+
+def _r14h(rep):
+    rep.rule("R14h", "the band order produced by the band connection is a permutation by construction (each new band is chosen at most once; composed with the previous order), and every call site starts from range(n)", 3)
+    fn = core.find_def(BS, "estimate_band_connection")
+    rets = [r for r in ast.walk(fn) if isinstance(r, ast.Return) and r.value is not None]
+    if len(rets) != 1:
+        raise AnalysisError("R14h: estimate_band_connection: expected one return")
+    params = [a.arg for a in fn.args.args]
+    dom = _seq_domain(fn, rets[0].value, {params[-1]})
+    if dom is None:
+        rep.unknown("R14h: the construction of the returned band order is not one of the modelled forms (exclusion loop, argsort, linear_sum_assignment, composition)")
+    else:
+        rep.instance("R14h", BS, "estimate_band_connection", f"return {core.src(rets[0].value)} is a permutation by construction", dom == "perm",
+                     "the connection picks the best-overlapping new band for each previous band independently: when two previous eigenvectors overlap most with the same new one, a band index is used twice and another is lost, so the frequencies of that q-point (and of every later point of the path) are not a re-ordering of the spectrum", line=rets[0].lineno)
+    # call sites: the order handed in is range(n) or an earlier result
+    n = 0
+    for rel, qn in ((BS, "BandStructure._solve_dm_on_path"), ("phonopy/gruneisen/core.py", "GruneisenBase._set_gruneisen")):
+        f = core.find_def(rel, qn)
+        for c in [c for c in ast.walk(f) if isinstance(c, ast.Call) and core.src(c.func) == "estimate_band_connection"]:
+            n += 1
+            arg = c.args[-1]
+            d = _seq_domain(f, arg, set())
+            rep.instance("R14h", rel, qn, f"{core.src(arg)} handed to estimate_band_connection is range(n) or an earlier result", d == "perm",
+                         f"the previous band order '{core.src(arg)}' is not known to be a permutation", line=c.lineno)
+    if n < 2:
+        raise AnalysisError("R14h: call sites of estimate_band_connection vanished")
 
 
 # ---------------------------------------------------------------------------
@@ -513,6 +622,10 @@ def selftest():
     V = []
     b = lambda name, file, old, new, rule, expect="", **kw: V.append(dict(name=name, kind="break", file=file, old=old, new=new, rule=rule, expect=expect, **kw))
     n = lambda name, file, old, new, **kw: V.append(dict(name=name, kind="neutral", file=file, old=old, new=new, **kw))
+    BSF = "phonopy/phonon/band_structure.py"
+    b("band connection by independent argmax", BSF, "    band_order = [connection_order[x] for x in prev_band_order]", "    connection_order = np.argmax(metric, axis=1)\n    band_order = [int(connection_order[x]) for x in prev_band_order]", "R14h", "estimate_band_connection")
+    b("band connection forgets to exclude used bands", BSF, "            if i in connection_order:\n                continue\n", "", "R14h", "estimate_band_connection")
+    n("band connection exclusion written as a guard", BSF, "            if i in connection_order:\n                continue\n            if val > maxval:", "            if i not in connection_order and val > maxval:")
     b("qpoints: eigenvectors share the dynamical-matrix buffer again", "phonopy/phonon/qpoints.py", "                eigenvectors = np.zeros_like(dynmat)\n", "                eigenvectors = dynmat\n", "R14a", "dynmat")
     b("itermesh: eigenvectors unbound without with_eigenvectors", "phonopy/phonon/mesh.py", "                eigenvectors = None\n", "", "R14b", "eigenvectors")
     b("mesh: frequency conversion loses the sign", "phonopy/phonon/mesh.py", "np.sqrt(abs(eigenvalues)) * np.sign(eigenvalues),", "np.sqrt(abs(eigenvalues)),", "R14c", "", nth=0)
